@@ -48,7 +48,7 @@ theorem guarded_run (cfg : Cfg) (p : Stmt) (hg : Bounded p = true) (input : List
     obtain ⟨a', B⟩ := r
     have hP := chk_sound cfg p Abs.empty a' B (St.init input) hchk (sat_empty _)
     have hB : allocBound p = B := by simp [allocBound, hchk]
-    unfold run
+    unfold run resultOf
     generalize exec cfg p (St.init input) = o at hP
     cases o with
     | cont s =>
@@ -80,7 +80,7 @@ theorem allocGuarded_total (p : Stmt) (hg : AllocGuarded p = true) : TotalAndBou
 theorem propagated_no_lost_error (cfg : Cfg) (p : Stmt) (hp : ErrPropagated p = true)
     (input : List UInt8) (n : Nat) (l : Bool) (h : run cfg p input = .value n l) : l = false := by
   have hl := exec_lost cfg p hp (St.init input)
-  unfold run at h
+  unfold run resultOf at h
   generalize exec cfg p (St.init input) = o at hl h
   cases o with
   | cont s =>
@@ -104,9 +104,9 @@ def exampleDecoder : Stmt := block [
   .alloc 2 (.var 1) 8,
   .loop 3 (.var 2) (.call "CellID.decode" (.read .u64 4)) ]
 
-example : Guarded exampleDecoder = true := by decide
-example : allocBound exampleDecoder = 8000000 := by decide
-example : TotalAndBounded exampleDecoder := guarded_total _ (by decide)
+example : Guarded exampleDecoder = true := by decide +kernel
+example : allocBound exampleDecoder = 8000000 := by decide +kernel
+example : TotalAndBounded exampleDecoder := guarded_total _ (by decide +kernel)
 example : run ⟨2 ^ 35⟩ exampleDecoder [1, 2, 0, 0, 0, 0, 0, 0, 0, 1, 2, 3, 4, 5, 6, 7, 8, 1, 2, 3, 4, 5, 6, 7, 8]
     = .value 16 false := by decide +kernel
 example : run ⟨2 ^ 35⟩ exampleDecoder [1, 2, 0, 0, 0, 0, 0, 0, 0, 1, 2, 3] = .error 16 := by decide +kernel
@@ -117,54 +117,38 @@ example : run ⟨2 ^ 35⟩ exampleDecoder [1, 255, 255, 255, 255, 255, 255, 255,
 
 def cap32G : Cfg := ⟨2 ^ 35⟩
 
-theorem Point_Decode_guarded : Guarded Point_Decode = true := by decide
-theorem Cap_Decode_guarded : Guarded Cap_Decode = true := by decide
-theorem Rect_Decode_guarded : Guarded Rect_Decode = true := by decide
-theorem CellID_Decode_guarded : Guarded CellID_Decode = true := by decide
-theorem Cell_Decode_guarded : Guarded Cell_Decode = true := by decide
-theorem Loop_Decode_guarded : Guarded Loop_Decode = true := by decide
-theorem Polygon_decode_guarded : Guarded Polygon_decode = true := by decide   -- uncompressed format only
+theorem Point_Decode_guarded : Guarded Point_Decode = true := by decide +kernel
+theorem Cap_Decode_guarded : Guarded Cap_Decode = true := by decide +kernel
+theorem Rect_Decode_guarded : Guarded Rect_Decode = true := by decide +kernel
+theorem CellID_Decode_guarded : Guarded CellID_Decode = true := by decide +kernel
+theorem Cell_Decode_guarded : Guarded Cell_Decode = true := by decide +kernel
+theorem Loop_Decode_guarded : Guarded Loop_Decode = true := by decide +kernel
+theorem Polygon_decode_guarded : Guarded Polygon_decode = true := by decide +kernel   -- uncompressed format only
 
 /-- consequences for the guarded decoders: total, error-or-value, allocation ≤ bound. -/
-theorem Point_Decode_total : TotalAndBounded Point_Decode := guarded_total _ (by decide)
-theorem Cap_Decode_total : TotalAndBounded Cap_Decode := guarded_total _ (by decide)
-theorem Rect_Decode_total : TotalAndBounded Rect_Decode := guarded_total _ (by decide)
-theorem CellID_Decode_total : TotalAndBounded CellID_Decode := guarded_total _ (by decide)
-theorem Cell_Decode_total : TotalAndBounded Cell_Decode := guarded_total _ (by decide)
-theorem Loop_Decode_total : TotalAndBounded Loop_Decode := guarded_total _ (by decide)
-theorem Loop_Decode_bound : allocBound Loop_Decode = 50000000 * 24 := by decide
+theorem Point_Decode_total : TotalAndBounded Point_Decode := guarded_total _ (by decide +kernel)
+theorem Cap_Decode_total : TotalAndBounded Cap_Decode := guarded_total _ (by decide +kernel)
+theorem Rect_Decode_total : TotalAndBounded Rect_Decode := guarded_total _ (by decide +kernel)
+theorem CellID_Decode_total : TotalAndBounded CellID_Decode := guarded_total _ (by decide +kernel)
+theorem Cell_Decode_total : TotalAndBounded Cell_Decode := guarded_total _ (by decide +kernel)
+theorem Loop_Decode_total : TotalAndBounded Loop_Decode := guarded_total _ (by decide +kernel)
+theorem Loop_Decode_bound : allocBound Loop_Decode = 50000000 * 24 := by decide +kernel
 
 /-! ### Decoders repaired in /repo (fix: commits for D2, D6, D14, D23): the obligations that were false on the
     original tree (negative cell count, decoder passed by value, missing return after the loop-count
     limit, negative off-centre index) now hold; the former failing byte strings return an error. -/
 
-theorem CellUnion_Decode_guarded : Guarded CellUnion_Decode = true := by decide
-theorem Polyline_Decode_guarded : Guarded Polyline_Decode = true := by decide
-theorem Polygon_Decode_guarded : Guarded Polygon_Decode = true := by decide
-theorem Polygon_decodeCompressed_guarded : Guarded Polygon_decodeCompressed = true := by decide
+theorem CellUnion_Decode_guarded : Guarded CellUnion_Decode = true := by decide +kernel
+theorem Polyline_Decode_guarded : Guarded Polyline_Decode = true := by decide +kernel
+theorem Polygon_Decode_guarded : Guarded Polygon_Decode = true := by decide +kernel
+theorem Polygon_decodeCompressed_guarded : Guarded Polygon_decodeCompressed = true := by decide +kernel
 
-theorem CellUnion_Decode_total : TotalAndBounded CellUnion_Decode := guarded_total _ (by decide)
-theorem Polyline_Decode_total : TotalAndBounded Polyline_Decode := guarded_total _ (by decide)
-theorem Polygon_Decode_total : TotalAndBounded Polygon_Decode := guarded_total _ (by decide)
-theorem CellUnion_Decode_bound : allocBound CellUnion_Decode = 1000000 * 8 := by decide
+theorem CellUnion_Decode_total : TotalAndBounded CellUnion_Decode := guarded_total _ (by decide +kernel)
+theorem Polyline_Decode_total : TotalAndBounded Polyline_Decode := guarded_total _ (by decide +kernel)
+theorem Polygon_Decode_total : TotalAndBounded Polygon_Decode := guarded_total _ (by decide +kernel)
+theorem CellUnion_Decode_bound : allocBound CellUnion_Decode = 1000000 * 8 := by decide +kernel
 
--- the former failing inputs are now rejected with an error
-example : run cap32G CellUnion_Decode [1, 255, 255, 255, 255, 255, 255, 255, 255] = .error 0 := by decide +kernel
-example : run cap32G Polyline_Decode [1, 5, 0, 0, 0] = .error 120 := by decide +kernel
-example : run cap32G Polyline_Decode [1, 0x81, 0xf0, 0xfa, 0x02] = .error 0 := by decide +kernel
-example : run cap32G Polygon_Decode [4, 0, 0x80, 0x80, 0x80, 0x80, 0x80, 0x20] = .error 0 := by decide +kernel
-example : run cap32G Polygon_Decode [4, 0, 0x85, 0x80, 0x80, 0x80, 0x80, 0x80, 0x80, 0x80, 0x80, 0x01]
-    = .error 0 := by decide +kernel
-
-/-- D23: an off-centre vertex index >= 2^63 (negative as `int`) is now rejected. -/
-example : run cap32G Polygon_Decode
-    [4, 0, 1, 1, 6, 1, 0x80, 0x80, 0x80, 0x80, 0x80, 0x80, 0x80, 0x80, 0x80, 0x01]
-    = .error 24 := by decide +kernel
-
-/-- D3 (repaired in the query code) is NOT visible in the decoder IR: the 0-vertex loop decodes to a value (43 bytes
-    `01 00000000 00 00000000 01 0…0`); the panic (integer divide by zero in `Loop.Vertex`) happens in
-    the later `ContainsPoint` query and is caught by the correspondence half (`ok QPANIC:…`). -/
-example : run cap32G Loop_Decode ([1, 0, 0, 0, 0, 0, 0, 0, 0, 0, 1] ++ List.replicate 32 0) = .value 0 false := by
-  decide +kernel
+-- Replays of the former failing byte strings through the model (`run … = .error …`) live in
+-- `S2Proofs/C15Examples.lean`, so that this file only evaluates the linear-time static checker.
 
 end S2Proofs.C15
